@@ -110,7 +110,7 @@ def check_model(ctx, m, e, k):
         d.conn.close()
         d = gffutils.FeatureDB(path)      # a fresh handle: children_bp(merge=True) advanced the live counters of the old one
         res = d.merge_all(exclude_components=m["exclude"])
-        d.conn.commit()
+        d.conn.close()                    # "stores": what a new connection finds after the handle is closed, without any commit of the harness
         got = G.canon_snap(dbio.proj_file(path))
         want = G.canon_snap(e["mergeall"]["db"])
         # the source of a merged feature is the joined set of its members' sources (all 's' here); bins are not compared
@@ -125,7 +125,6 @@ def check_model(ctx, m, e, k):
         if bad:
             ctx.violation(case, "merge_all:" + bad, {"exclude_components": m["exclude"], "expected_keys": [dec(f["id"]) for f in e["mergeall"]["db"]["feats"]],
                                                       "observed_keys": [dec(f["id"]) for f in got["feats"]]})
-        d.conn.close()
     except Exception as ex:  # noqa
         ctx.violation(case, "raised:" + type(ex).__name__, {"message": str(ex)[:200]})
     finally:
